@@ -111,11 +111,26 @@ func newHndMachine(c *Ctx) (*hndMachine, error) {
 	in := newInterp(c)
 	m.in = in
 	in.Inline = func(o types.Object) bool {
-		switch o.Name() {
-		case "splitParams", "joinParams":
+		// small helpers of the VM that manipulate the operand stack (e.g. an extracted pop) are executed in place;
+		// the semantic operations (call, callReady, op methods, containers) stay named calls
+		fn, ok := o.(*types.Func)
+		if !ok || fn.Pkg() == nil || fn.Pkg().Path() != modPath {
 			return false
 		}
-		return false
+		switch fn.Name() {
+		case "call", "callReady", "exec", "run", "Func", "Call", "Eval", "Load", "btErr", "mkFunc", "Yield":
+			return false
+		}
+		sig := fn.Type().(*types.Signature)
+		takesVM := sig.Recv() != nil && isNamed(sig.Recv().Type(), "VM")
+		for i := 0; i < sig.Params().Len() && !takesVM; i++ {
+			takesVM = isNamed(sig.Params().At(i).Type(), "VM")
+		}
+		if !takesVM {
+			return false
+		}
+		fd := c.DeclOf(fn)
+		return fd != nil && fd.Body != nil && len(fd.Body.List) <= 6 && c.isNewHelper(fn)
 	}
 	in.H.Post = m.post
 	in.H.Call = m.call
